@@ -473,6 +473,10 @@ def main(sess):
     if not only or 'root_options' in only:
         from drivers import c01
         c01.fam_root_options(sess)
+    # the search root as an INNER node of the abstract file system: links to directories outside / above the root, chains through outside links
+    if not only or any(o.startswith('outside') for o in only):
+        from drivers import c18_outside
+        c18_outside.run(sess)
     # links that lead above the root (to the root's parent directory): one node fewer, bfs and dfs, absolute root
     for dfs in (False, True):
         fam = 'links/above/%s' % ('dfs' if dfs else 'bfs')
